@@ -56,9 +56,63 @@ def replay(w):
             b = gl._zero_small_elements(M, float(val))
             bad = not np.array_equal(a, b)
             return {'reproduced': bad, 'signature': 'floor-forms-differ' if bad else None, 'observed': {}}
+        if kind in ('forward_beta_forms', 'forward'):
+            return _forward(w)
     except Exception as exc:
         return {'reproduced': True, 'signature': 'parameter-form-rejected', 'observed': {'raised': repr(exc), 'form': nt.get('tag')}}
     return {'reproduced': False, 'signature': None, 'observed': {'unhandled': kind}}
+
+
+class _Stop(Exception):
+    pass
+
+
+def _forward(w):
+    """What reaches the main loop through the real front ends, for beta as a scalar and as a filled
+    vector (and, for kind 'forward', that lambda / eps / scalar beta arrive as given)."""
+    import fast_ticc
+    from fast_ticc import main_loop, front_end
+    nt, inp = w['notes'], w.get('inputs') or {}
+    joint = bool(nt.get('joint'))
+    lens = [int(x) for x in nt.get('lens', [2, 2] if joint else [3])]
+    b = abs(flt(inp.get('b', 2.5))) or 2.5
+    total = sum(lens)
+    seen = []
+    real_fit = main_loop.fit_stacked_data
+
+    def spy(user_args, stacked):
+        seen.append(user_args)
+        raise _Stop()
+    main_loop.fit_stacked_data = spy
+    vec = np.full(total, b)
+    lam = np.array([[0.3]])
+    try:
+        for form in (b, vec):
+            data = [np.arange(L, dtype=float).reshape(-1, 1) for L in lens]
+            kw = dict(window_size=1, num_clusters=2, iteration_limit=1, min_cluster_size=1, sparsity_weight=lam,
+                      label_switching_cost=form, min_meaningful_covariance=0.25)
+            try:
+                (fast_ticc.ticc_joint_labels if joint else fast_ticc.ticc_labels)(data if joint else data[0], **kw)
+            except _Stop:
+                pass
+    finally:
+        main_loop.fit_stacked_data = real_fit
+    if len(seen) != 2:
+        return {'reproduced': True, 'signature': 'front-end-did-not-reach-the-main-loop-once-per-call',
+                'observed': {'calls': len(seen)}}
+
+    def effective(a):
+        v = a.label_switching_cost
+        return [float(x) for x in np.asarray(v, float).ravel()] if isinstance(v, np.ndarray) else [float(v)] * total
+    e1, e2 = effective(seen[0]), effective(seen[1])
+    if len(e1) != len(e2) or e1[:total - 1] != e2[:total - 1]:
+        return {'reproduced': True, 'signature': 'scalar-and-filled-vector-beta-reach-the-main-loop-differently',
+                'observed': {'scalar_form': e1, 'vector_form': e2, 'lens': lens}}
+    if nt.get('kind') == 'forward':
+        a = seen[0]
+        if a.sparsity_weight is not lam or a.min_meaningful_covariance != 0.25:
+            return {'reproduced': True, 'signature': 'front-end-alters-a-hyper-parameter', 'observed': {}}
+    return {'reproduced': False, 'signature': None, 'observed': {'scalar_form': e1, 'vector_form': e2}}
 
 
 def validate(witnesses):
